@@ -1,6 +1,7 @@
 package facesim
 
 import (
+	"crypto/sha256"
 	"encoding/hex"
 	"errors"
 	"fmt"
@@ -52,7 +53,7 @@ type RxEngine struct{}
 
 func (RxEngine) Name() string { return "rxsim" }
 
-var hugeVals = []uint64{0, 1, 2, 127, 252, 253, 254, 255, 256, 8799, 8800, 8801, 65535, 65536, 1<<31 - 1, 1 << 31, 1<<31 + 1, 1<<32 - 1, 1 << 32, 1 << 40, 1 << 47, 1<<63 - 1, 1 << 63, 1<<64 - 1}
+var hugeVals = MutVals
 
 func (RxEngine) Generate(prop string, r *kit.Rand, tier string) *kit.Scenario[RxConfig, RxOp] {
 	sc := &kit.Scenario[RxConfig, RxOp]{}
@@ -83,7 +84,7 @@ func (RxEngine) Generate(prop string, r *kit.Rand, tier string) *kit.Scenario[Rx
 	bases := []string{"interest", "data", "lp-interest", "lp-data", "frag", "nack", "idle", "random", "edge"}
 	for i := 0; i < n; i++ {
 		o := RxOp{Base: bases[r.Weighted([]int{5, 5, 5, 5, 6, 1, 1, 2, 3})], Seed: r.Intn(1 << 16)}
-		switch r.Weighted([]int{15, 25, 10, 10, 8, 6, 4, 12, 8}) {
+		switch r.Weighted([]int{15, 25, 10, 10, 8, 6, 4, 12, 8, 10}) {
 		case 0:
 			o.Mut = ""
 		case 1:
@@ -104,6 +105,11 @@ func (RxEngine) Generate(prop string, r *kit.Rand, tier string) *kit.Scenario[Rx
 		case 8:
 			o.Base = kit.Pick(r, []string{"lp-data", "lp-interest"})
 			o.Mut, o.Val = "token", kit.Pick(r, []uint64{0, uint64(c.Threads - 1), uint64(c.Threads), uint64(c.Threads + 1), 255, 256, 65535})
+		case 9:
+			o.Mut, o.At, o.Val = "resize", r.Intn(64), uint64(kit.Pick(r, []int{0, 0, 1, 2, 3, 4, 5, 6, 7, 8, 9, 10, 16, 31, 32, 33, 252, 253, 300}))
+		}
+		if o.Mut != "" && o.Mut != "fragfield" && o.Mut != "token" && r.Chance(0.3) {
+			o.Mut += "+fix"
 		}
 		sc.Ops = append(sc.Ops, o)
 	}
@@ -236,6 +242,40 @@ func lpEncode(lp *spec.LpPacket) []byte {
 	return w.Join()
 }
 
+// MutVals are the values written into length and number fields: the edges of every TLV length form, of the MTU, of
+// int32/int64, and sizes no canonical encoder produces.
+var MutVals = []uint64{0, 1, 2, 3, 5, 7, 9, 127, 252, 253, 254, 255, 256, 8799, 8800, 8801, 65535, 65536, 1<<31 - 1, 1 << 31, 1<<31 + 1,
+	1<<32 - 1, 1 << 32, 1 << 40, 1 << 47, 1<<63 - 1, 1 << 63, 1<<63 + 1, 1<<64 - 16, 1<<64 - 11, 1<<64 - 10, 1<<64 - 9, 1<<64 - 3, 1<<64 - 2, 1<<64 - 1}
+
+// GenMut draws one generic corruption (the kinds every C04 part shares): fields is the bound for the element index,
+// span the bound for byte positions.
+func GenMut(r *kit.Rand, fields, span int) (mut string, at int, val uint64) {
+	switch r.Weighted([]int{4, 5, 4, 2, 3, 3, 2}) {
+	case 0:
+		return "len", r.Intn(fields), kit.Pick(r, MutVals)
+	case 1:
+		return "lenfix", r.Intn(fields), kit.Pick(r, MutVals)
+	case 2:
+		return "resize", r.Intn(fields), uint64(kit.Pick(r, []int{0, 0, 1, 2, 3, 4, 5, 6, 7, 8, 9, 10, 16, 31, 32, 33, 252, 253, 300}))
+	case 3:
+		return "trunc", r.Intn(span), 0
+	case 4:
+		return "flip", r.Intn(span), uint64(1 + r.Intn(255))
+	case 5:
+		return "type", r.Intn(fields), uint64(r.Intn(256))
+	}
+	return "insert", r.Intn(span), uint64(r.Intn(1 << 16))
+}
+
+// GenMutFix is GenMut with, half of the time, the digests recomputed after the corruption (see Mutate).
+func GenMutFix(r *kit.Rand, fields, span int) (mut string, at int, val uint64) {
+	mut, at, val = GenMut(r, fields, span)
+	if r.Bool() {
+		mut += "+fix"
+	}
+	return
+}
+
 // tlField locates one TLV's type and length fields.
 type tlField struct{ tOff, tLen, lOff, lLen, vLen int }
 
@@ -262,7 +302,8 @@ func parsesAsTLVs(b []byte) bool {
 }
 
 func walkTLVIn(b []byte, base int, out *[]tlField, depth int, inContent bool) {
-	containers := map[uint64]bool{0x64: true, 0x50: true, 0x05: true, 0x06: true, 0x07: true, 0x14: true, 0x16: true, 0x1c: true, 0x1e: true, 0x0320: true, 0x0334: true, 0x2c: true}
+	containers := map[uint64]bool{0x64: true, 0x50: true, 0x05: true, 0x06: true, 0x07: true, 0x14: true, 0x16: true, 0x1c: true, 0x1e: true, 0x0320: true, 0x0334: true, 0x2c: true,
+		0x68: true, 0x65: true, 0x6b: true, 0x80: true, 0x81: true, 0xc9: true, 0xca: true}
 	off := 0
 	for off < len(b) && depth < 8 {
 		t, tl, ok := readVar(b[off:])
@@ -279,7 +320,7 @@ func walkTLVIn(b []byte, base int, out *[]tlField, depth int, inContent bool) {
 		if l > uint64(len(b)-vs) {
 			return
 		}
-		if containers[t] || ((t == 0x15 || t == 0x24 || inContent) && parsesAsTLVs(b[vs:vs+int(l)])) {
+		if containers[t] || ((t == 0x15 || t == 0x24 || inContent || (depth == 0 && base == 0 && int(l) == len(b)-vs)) && parsesAsTLVs(b[vs:vs+int(l)])) {
 			// Content / ApplicationParameters often carry nested TLV structures (advertisements, prefix operation
 			// lists, state vectors, metadata): their fields are corrupted too
 			walkTLVIn(b[vs:vs+int(l)], base+vs, out, depth+1, inContent || t == 0x15 || t == 0x24)
@@ -424,6 +465,11 @@ func (w *rxWorld) buildFrame(o *RxOp) []byte {
 // "flip" xors a byte, "type" rewrites a type field, "insert" adds bytes, "fragfield"/"token" rewrite link-protocol
 // fields. Other values leave the frame as it is.
 func Mutate(f []byte, mut string, at int, val uint64) []byte {
+	if base, ok := strings.CutSuffix(mut, "+fix"); ok {
+		// the sender is an attacker, not a noisy wire: digests that cover the corrupted part are recomputed, so
+		// that the packet passes the integrity checks in front of the decoders behind them
+		return RepairDigests(Mutate(f, base, at, val))
+	}
 	f = append([]byte(nil), f...)
 	switch mut {
 	case "len", "lenfix":
@@ -444,6 +490,35 @@ func Mutate(f []byte, mut string, at int, val uint64) []byte {
 				if e.lOff+e.lLen+e.vLen >= fl.lOff+fl.lLen && e.lOff < fl.lOff && e.lLen == len(putVar(uint64(e.vLen+delta))) {
 					copy(g[e.lOff:], putVar(uint64(e.vLen+delta)))
 				}
+			}
+		}
+		return g
+	case "resize":
+		// one element's value is cut or zero-padded to val bytes and every enclosing length is re-encoded, so the
+		// frame stays perfectly consistent: only the element's own size is unusual (a number of 0, 3 or 9 bytes, an
+		// empty name, a 7-byte nonce ...)
+		var fs []tlField
+		walkTLV(f, 0, &fs, 0)
+		if len(fs) == 0 {
+			return f
+		}
+		k := at % len(fs)
+		fl := fs[k]
+		vOff := fl.lOff + fl.lLen
+		if fl.vLen < 0 || vOff+fl.vLen > len(f) || vOff+fl.vLen < vOff || val > 1<<16 {
+			return f
+		}
+		nv := make([]byte, int(val))
+		copy(nv, f[vOff:vOff+fl.vLen])
+		nl := putVar(val)
+		g := append(append(append(append([]byte(nil), f[:fl.lOff]...), nl...), nv...), f[vOff+fl.vLen:]...)
+		delta := len(nl) + len(nv) - fl.lLen - fl.vLen
+		for j := k - 1; j >= 0; j-- { // enclosing elements come earlier in pre-order; innermost first
+			e := fs[j]
+			if e.lOff+e.lLen <= fl.tOff && e.lOff+e.lLen+e.vLen >= vOff+fl.vLen {
+				el := putVar(uint64(e.vLen + delta))
+				g = append(append(append([]byte(nil), g[:e.lOff]...), el...), g[e.lOff+e.lLen:]...)
+				delta += len(el) - e.lLen
 			}
 		}
 		return g
@@ -493,6 +568,84 @@ func Mutate(f []byte, mut string, at int, val uint64) []byte {
 			return lpEncode(p.LpPacket)
 		}
 	}
+	return f
+}
+
+// RepairDigests recomputes, in place, the parameters digest of an Interest and the DigestSha256 signature of a Data
+// packet (bare or inside an LpPacket fragment) when the frame is still well-formed enough to find them.
+func RepairDigests(f []byte) []byte {
+	f = append([]byte(nil), f...)
+	type el struct {
+		t            uint64
+		off, vs, end int
+	}
+	children := func(lo, hi int) []el {
+		var out []el
+		for off := lo; off < hi; {
+			t, tl, ok := readVar(f[off:hi])
+			if !ok {
+				return nil
+			}
+			l, ll, ok := readVar(f[off+tl : hi])
+			if !ok || l > uint64(hi-off-tl-ll) {
+				return nil
+			}
+			out = append(out, el{t, off, off + tl + ll, off + tl + ll + int(l)})
+			off += tl + ll + int(l)
+		}
+		return out
+	}
+	var fix func(lo, hi, depth int)
+	fix = func(lo, hi, depth int) {
+		for _, e := range children(lo, hi) {
+			switch e.t {
+			case 0x64:
+				if depth == 0 {
+					for _, c := range children(e.vs, e.end) {
+						if c.t == 0x50 {
+							fix(c.vs, c.end, depth+1)
+						}
+					}
+				}
+			case 0x05:
+				kids := children(e.vs, e.end)
+				dg, ap := -1, -1
+				for _, k := range kids {
+					if k.t == 0x07 {
+						for _, c := range children(k.vs, k.end) {
+							if c.t == 0x02 && c.end-c.vs == 32 {
+								dg = c.vs
+							}
+						}
+					}
+					if k.t == 0x24 && ap < 0 {
+						ap = k.off
+					}
+				}
+				if dg >= 0 && ap >= 0 {
+					h := sha256.Sum256(f[ap:e.end])
+					copy(f[dg:dg+32], h[:])
+				}
+			case 0x06:
+				kids := children(e.vs, e.end)
+				for i, k := range kids {
+					if k.t == 0x17 && k.end-k.vs == 32 && i > 0 && kids[i-1].t == 0x16 && len(kids) > 0 {
+						sha := false
+						for _, c := range children(kids[i-1].vs, kids[i-1].end) {
+							if c.t == 0x1b && c.end-c.vs == 1 && f[c.vs] == 0 {
+								sha = true
+							}
+						}
+						if sha {
+							h := sha256.Sum256(f[kids[0].off:k.off])
+							copy(f[k.vs:k.end], h[:])
+						}
+					}
+				}
+			}
+		}
+	}
+	fix(0, len(f), 0)
 	return f
 }
 
@@ -677,7 +830,11 @@ func (e RxEngine) Run(t *testing.T, ctx *kit.Ctx, sc *kit.Scenario[RxConfig, RxO
 			runtime.ReadMemStats(&ms)
 			grewApp := ms.TotalAlloc - a0 - grew
 			limit := uint64(1<<20 + 64*len(frame))
-			if res.Violation == nil && grew > limit {
+			// "in proportion": linear in the frame. A Data packet without a PIT token goes to every thread that one
+			// of its name prefixes hashes to, and each admits it to its cache (a name-tree node per component): the
+			// factor grows with the number of threads, the bound stays linear in the input
+			fwLimit := limit + uint64(len(frame))*uint64(256*w.threads)
+			if res.Violation == nil && grew > fwLimit {
 				res.Violation = &kit.Violation{Class: "C04/allocation-out-of-proportion", Key: "forwarder-receive-path", Step: step,
 					Detail: fmt.Sprintf("a %d-byte frame made the forwarder's receive path allocate %d bytes", len(frame), grew)}
 			}
